@@ -128,6 +128,8 @@ type FnV struct {
 	i2fCache map[string]string
 	i2fList [][2]string
 	ncut int
+	intOf map[string]string
+	mathInts bool
 	noPatterns bool
 	dm map[string][2]string
 	instName string
